@@ -97,6 +97,8 @@ def lr_run(g, w):
             stack.append(p); i += 1
         elif k == 1:
             h, body = g["prods"][p]
+            if len(body) >= len(stack):
+                return False, reds          # the stack does not hold the body: not a sentence
             if body:
                 del stack[-len(body):]
             nx = g["gotos"].get((stack[-1], h))
@@ -222,6 +224,9 @@ def run(ctx):
         if g["kind"] in ("PARSEERR",):
             stats["rejected_earlier"] += 1
             continue
+        if g["kind"] == "PANIC" and any(f.get("explains_panic_frame") and f["explains_panic_frame"] in decode_hex_fields(i) for f in known_for("C06")):
+            stats["crashes_explained_by_known_findings"] = stats.get("crashes_explained_by_known_findings", 0) + 1
+            continue
         if g["kind"] in ("CRASH", "PANIC", "NILNIL", "CONFLICT+TABLE"):
             ctx.add_violation("LALRParsingTable crashed or returned both a table and an error", {"input": text, "input_hex": hx(text.encode()), "implementation": decode_hex_fields(i)[:600]})
             continue
@@ -306,6 +311,7 @@ def run(ctx):
                     ctx.add_violation("the parse built for an operator expression is not the one the declared precedence and associativity dictate",
                                       {"input": text, "input_hex": hx(text.encode()), "expression": " ".join(toks), "tree": repr(got), "dictated": repr(want)})
                     break
+    ctx.witness_hits()
     cov = {"evaluations": len(cases), "distinct_nontrivial": len(distinct),
            "rule": "textbook families (SLR; LALR-not-SLR; LR(1)-not-LALR; inherently ambiguous; dangling else with and without directives; epsilon and unit productions; unary operators with rule handles; non-associative operators), operator grammars with random precedence tables (1-5 operators, random levels and associativities, sometimes an operator left without a directive) and random grammars (2-4 non-terminals, 2-4 terminals); per grammar: accept/reject against the reference construction, table entry-for-entry (up to state renaming), WF of the implementation's table, every terminal string up to length 6 (sampled above 3000 per length) through the table against a bounded-language computation, operator expressions against precedence climbing; non-trivial = distinct grammar that reached the table construction",
            "samples": [cases[0][0], cases[len(TEXTBOOK)][0]], "outcomes": stats, "correspondence_disagreements": ncorr,
